@@ -235,25 +235,27 @@ def run(ctx):
         ctx.bad("R13.3", "worker", "the command worker closure was not found", detail="ANCHOR-MISSING")
     else:
         c11.worker_loop(ctx, A, W, "R13.3", drain_liveness=True)
-        drains = [bb for f, bb, t, m in A.recv_sites if m == "iter_next" and f is W]
-        n_foreach = len([bb for f, bb, t, m in A.recv_sites if m == "iter_for_each" and f is W])
+        from ackmodel import thread_roots
+        sp_ = F.spawn_closures()
+        drains = [(f, bb) for f, bb, t, m in A.recv_sites if m == "iter_next" and thread_roots(F, f.name, sp_) == {W.name}]
+        n_foreach = len([bb for f, bb, t, m in A.recv_sites if m == "iter_for_each" and thread_roots(F, f.name, sp_) == {W.name}])
         ctx.floor("R13.3", "drain receive sites in the worker", len(drains) + n_foreach, 1)
-        for bb in drains:
-            t = W.term(bb)
-            ve = variant_edges(W, t["target"])
+        for DW, bb in drains:
+            t = DW.term(bb)
+            ve = variant_edges(DW, t["target"])
             ok = False
             if ve:
                 some = [tgt for n, tgt in ve[1] if n == "Some"]
-                ok = bool(some) and all(W.must_pass([s], [bb]) for s in some)
+                ok = bool(some) and all(DW.must_pass([s], [bb]) for s in some)
             ctx.check(ok, "R13.3", "%s|drain-exits-only-on-disconnect" % W.name,
-                      "the drain loop leaves only when the channel reports disconnection: every received pair is answered and the loop continues", W.where(bb))
+                      "the drain loop leaves only when the channel reports disconnection: every received pair is answered and the loop continues", DW.where(bb))
         # ShuttingDown is constructed only in the worker
         sites = []
         for name, f in F.fns.items():
             for b in sorted(f.live_blocks()):
                 for i, s in enumerate(f.blocks[b]["stmts"]):
                     if s["k"] == "assign" and s["rv"]["k"] == "agg" and s["rv"].get("variant") == "ShuttingDown" and s["rv"].get("adt", "").endswith("CommandStatus"):
-                        sites.append(worker_root(F, name, F.spawn_closures()))
+                        sites += sorted(thread_roots(F, name, F.spawn_closures()))
         ctx.check(sites and set(sites) == {W.name}, "R13.5", "shutting-down-only-in-drain", "CommandStatus::ShuttingDown is produced only by the worker's drain arm", detail=str(sorted(set(sites))))
 
     senders_all = set(A.send_fns)
